@@ -11,3 +11,7 @@ pub assume_specification [core::cmp::Ordering::is_le] (o: Ordering) -> (r: bool)
 // involved here is derived / structural)
 pub assume_specification<T: Clone> [<[T]>::to_vec] (s: &[T]) -> (r: Vec<T>)
     ensures r@ == s@;
+// Option combinators without a vstd specification (std semantics; closure results via call_ensures)
+pub assume_specification<T, F: FnOnce() -> Option<T>> [Option::<T>::or_else] (o: Option<T>, f: F) -> (r: Option<T>)
+    requires o is None ==> f.requires(()),
+    ensures o is Some ==> r == o, o is None ==> f.ensures((), r);
